@@ -721,7 +721,7 @@ def main(ctx):
             ctx.violation('V', 'recorded %s event (%s) violates %s' % (ev['kind'], ev.get('route') or ev.get('flavour'), rej[ev['id']][0]),
                           case={k: ev[k] for k in ev if k not in ('obs', 'id', 'post')}, actual=ev.get('obs') or ev.get('post'), clause=rej[ev['id']][0], expected=rej[ev['id']][1])
     from . import twin
-    tev = twin.events(rng, 1200 if quick else 30000, [twin.flat_pair, twin.hier_pair])
+    tev = twin.events(rng, 1500 if quick else 36000, [twin.flat_pair, twin.flat_pair, twin.hier_pair, twin.hier_pair, twin.lazy_pair])
     for k, ev in enumerate(tev):
         ev['id'] = k
         ctx.count('V_twin_' + ev['info'].get('kind', 'history').split(':')[0])
